@@ -302,6 +302,16 @@ func RunC09(c *core.Ctx) {
 		}
 		jobs = append(jobs, childJob{Mode: "emitter", Lic: 1 + i%3, Storage: "inmemory", Label: fmt.Sprintf("class-%02d-%s", i, cls), Seed: int64(i), Walk: walk})
 	}
+	// connections that never send CONNECT, in the canary context
+	for i, cls := range []string{"nothing", "ping", "disconnect", "cut-connect", "garbage", "sub-first", "pub-first"} {
+		walk := []json.RawMessage{
+			mk(`{"n":"connect","c":"c1","u":"u-c1","will":{"on":false}}`),
+			mk(`{"n":"sub","c":"c1","k":"kAll","w":["a"],"syn":"ok","last":0,"win":"none"}`),
+			mk(fmt.Sprintf(`{"n":"stranger","cls":%q}`, cls)),
+			mk(`{"n":"pub","c":"c1","k":"kAll","w":["a"],"syn":"ok","me0":false,"ttl":-1,"via":"","retain":false,"qos":1,"p":"after"}`),
+		}
+		jobs = append(jobs, childJob{Mode: "emitter", Lic: 1 + i%3, Storage: "inmemory", Label: fmt.Sprintf("stranger-%02d-%s", i, cls), Seed: int64(i), Walk: walk})
+	}
 	corpusOnce.Do(buildCorpus)
 	for _, fn := range []string{"OnGossip", "OnGossipBroadcast", "DecodeState", "OnGossipUnicast", "DecodeFrame", "DecodeMessage"} {
 		n := len(stateCorpus)
@@ -330,7 +340,7 @@ func RunC09(c *core.Ctx) {
 		}
 		byMode[mode] = append(byMode[mode], t)
 		for _, e := range t.Events {
-			if strings.Contains(string(e), `"e":"hostile"`) || strings.Contains(string(e), `"e":"cluster"`) {
+			if strings.Contains(string(e), `"e":"hostile"`) || strings.Contains(string(e), `"e":"cluster"`) || strings.Contains(string(e), `"e":"stranger"`) {
 				nontrivial++
 				break
 			}
@@ -352,7 +362,7 @@ func RunC09(c *core.Ctx) {
 			if r.Index > 0 {
 				prev = string(r.Trace.Events[r.Index-1])
 			}
-			if strings.Contains(ev, `"e":"broker-died"`) && lastHostile(r.Trace) == "" && !strings.Contains(ev, "hostile") && !strings.Contains(strings.Join(evStrings(r.Trace), ""), `"e":"cluster"`) {
+			if strings.Contains(ev, `"e":"broker-died"`) && lastHostile(r.Trace) == "" && !strings.Contains(ev, "hostile") && !strings.Contains(ev, "stranger") && !strings.Contains(strings.Join(evStrings(r.Trace), ""), `"e":"stranger"`) && !strings.Contains(strings.Join(evStrings(r.Trace), ""), `"e":"cluster"`) {
 				core.Fatalf("the broker child process died before any hostile step of %s: %s", r.Trace.Label, ev[:min(len(ev), 600)])
 			}
 			tag := classify(ev, prev, r.Trace)
